@@ -780,14 +780,20 @@ Examples:
     collapse = {}
     #XXX: any vectorized way to do this?
     for i,j in pairs: #XXX: sorted(sorted(pair) for pair in pairs): # ordering?
-        found = False
+        if i == j: continue # nothing to connect
+        ki = kj = None # the keys of the groups that hold i and j
         for k,v in collapse.items():
-            if i in (k,) or i in v:
-                v.add(j); found = True; break
-            if j in (k,) or j in v:
-                v.add(i); found = True; break
-        if not found:
+            if ki is None and (i == k or i in v): ki = k
+            if kj is None and (j == k or j in v): kj = k
+        if ki is None and kj is None:
             collapse[i] = set((j,))
+        elif kj is None:
+            collapse[ki].add(j)
+        elif ki is None:
+            collapse[kj].add(i)
+        elif ki != kj: # the pair bridges two groups: merge them
+            collapse[ki].update(collapse.pop(kj))
+            collapse[ki].add(kj)
     return collapse
 
 
